@@ -9,7 +9,7 @@
    and, below, the per-family conjunctions quoted by Properties/C08.v. *)
 From Coq Require Import ZArith List Bool.
 From AQ Require Export Evm.OpsModel Evm.OpsSpec Evm.OpsTableSpec
-  Evm.OpsProofsArith Evm.OpsProofsGas Evm.OpsProofsJumpdest Evm.OpsProofsTable Evm.OpsProofsMem Evm.OpsProofsEnv Evm.OpsProofsGasState Evm.OpsProofsNarrow Evm.OpsProofsGasStep.
+  Evm.OpsProofsArith Evm.OpsProofsGas Evm.OpsProofsJumpdest Evm.OpsProofsTable Evm.OpsProofsMem Evm.OpsProofsEnv Evm.OpsProofsGasState Evm.OpsProofsNarrow Evm.OpsProofsGasStep Evm.OpsMemStep Evm.OpsProofsMemGas Evm.OpsProofsMemStep Evm.OpsAlias Evm.OpsProofsAlias.
 Import ListNotations.
 Local Open Scope Z_scope.
 
@@ -273,3 +273,78 @@ Proof. exact (conj step_gas_base_spec (conj step_gas_MLOAD (conj step_gas_MSTORE
 
 
 
+
+(* memoryGasCost over the whole uint64 range, the wrap explicit; exact boundary of correctness; memory size of any step *)
+Theorem memory_gas_total_all :
+  (forall memLen last n, 0 <= memLen -> 0 <= last < two64 -> 0 <= n < two64 ->
+  memoryGasCost memLen last n =
+    if n =? 0 then Ok (0, last)
+    else if n >? 0xffffffffe0 then Err ErrGasUintOverflow
+    else if 32 * ceil32 n >? memLen then Ok (wrap64 (Cmem_code (ceil32 n) - last), Cmem_code (ceil32 n))
+    else Ok (0, last)) /\
+  (forall w, 0 <= w < 2^32 -> Cmem_code w = Cmem w) /\
+  (forall w, 2^32 <= w < 2^35 -> Cmem_code w < Cmem w) /\
+  (forall w0 n, 0 <= w0 < 2^32 -> 0 < n <= 0xffffffffe0 -> w0 < ceil32 n ->
+  (memoryGasCost (32 * w0) (Cmem w0) n = Ok (Cmem (ceil32 n) - Cmem w0, Cmem (ceil32 n)) <-> ceil32 n < 2^32)) /\
+  (forall memLen last n, 0 <= memLen -> 0 <= last < two64 -> 0 <= n < two64 ->
+  (memoryGasCost memLen last n = Err ErrGasUintOverflow <-> 0xffffffffe0 < n) /\ memoryGasCost memLen last n <> Panic) /\
+  (forall b, 0 <= b ->
+  run_memorySize b = if 32 * ceil32 b <=? maxU64 then Ok (32 * ceil32 b) else Err ErrGasUintOverflow) /\
+  (forall inOff inSize retOff retSize, word inOff -> word inSize -> word retOff -> word retSize ->
+  let need := Z.max (if retSize =? 0 then 0 else retOff + retSize) (if inSize =? 0 then 0 else inOff + inSize) in
+  run_memorySize (memoryCall inOff inSize retOff retSize) =
+    if 32 * ceil32 need <=? maxU64 then Ok (32 * ceil32 need) else Err ErrGasUintOverflow).
+Proof. exact (conj memoryGasCost_total (conj Cmem_code_below (conj Cmem_code_wraps (conj memoryGasCost_correct_iff (conj memoryGasCost_error_iff (conj run_memorySize_big run_memorySize_call_spec)))))). Qed.
+
+(* memory instructions without the resize precondition, any 256-bit operands *)
+Theorem memory_step_all :
+  (forall avail mem last gasfn off len m' g l', mem_gated gasfn -> word off -> word len ->
+  prepare_mem avail mem last gasfn off len = Ok (m', g, l') ->
+  exists k, m' = mem ++ repeat 0 k /\ (len = 0 \/ off + len <= blen m') /\ blen m' <= Z.max (blen mem) MEMCAP /\
+            gasfn (blen mem) last (if len =? 0 then 0 else 32 * ceil32 (off + len)) = Ok (g, l')) /\
+  (forall avail mem last gasfn off len, (forall a b c, gasfn a b c <> Panic) -> word off -> word len ->
+  match prepare_mem avail mem last gasfn off len with
+  | Ok _ => True
+  | Err e => e = ErrGasUintOverflow \/ e = ErrOutOfGas
+  | Panic => False
+  end) /\
+  (forall avail mem last gasfn off len, word off -> word len -> len <> 0 -> two64 <= off + len ->
+  prepare_mem avail mem last gasfn off len = Err ErrGasUintOverflow) /\
+  (forall avail mem last gasfn off len, mem_gated gasfn -> (forall a b c, gasfn a b c <> Panic) ->
+  word off -> word len -> len <> 0 -> MEMCAP < off + len ->
+  exists e, prepare_mem avail mem last gasfn off len = Err e) /\
+  (forall avail mem last off v m' g l', mem_bounded mem -> word off ->
+  run_MLOAD avail mem last off = Ok (v, m', g, l') ->
+  v = spec_MLOAD mem off /\ (exists k, m' = mem ++ repeat 0 k) /\ off + 32 <= blen m') /\
+  (forall avail mem last off v m'' g l', mem_bounded mem -> bytesval mem -> word off -> word v ->
+  run_MSTORE avail mem last off v = Ok (m'', g, l') ->
+  exists k, m'' = spec_MSTORE (mem ++ repeat 0 k) off v /\ off + 32 <= blen (mem ++ repeat 0 k)) /\
+  (forall avail mem last off v m'' g l', mem_bounded mem -> word off -> word v ->
+  run_MSTORE8 avail mem last off v = Ok (m'', g, l') ->
+  exists k, m'' = spec_MSTORE8 (mem ++ repeat 0 k) off v /\ off + 1 <= blen (mem ++ repeat 0 k)) /\
+  (forall avail mem last data memOff dataOff len m'' g l', mem_bounded mem -> blen data < 2 ^ 62 ->
+  word memOff -> word dataOff -> word len ->
+  run_DATACOPY avail mem last data memOff dataOff len = Ok (m'', g, l') ->
+  exists k, m'' = spec_DATACOPY (mem ++ repeat 0 k) data memOff dataOff len /\ (len = 0 \/ memOff + len <= blen (mem ++ repeat 0 k))) /\
+  (forall (H : list Z -> list Z) avail mem last off len v m' g l', mem_bounded mem -> word off -> word len ->
+  run_SHA3 H avail mem last off len = Ok (v, m', g, l') -> v = spec_SHA3 H mem off len) /\
+  (forall gasfn avail mem last off len d m' g l', mem_gated gasfn -> mem_bounded mem -> word off -> word len ->
+  run_RANGE gasfn avail mem last off len = Ok (d, m', g, l') -> d = spec_data mem off (Z.to_nat len)) /\
+  (forall avail mem last rd memOff dataOff len, mem_bounded mem -> blen rd < 2 ^ 62 ->
+  word memOff -> word dataOff -> word len ->
+  match run_RETURNDATACOPY avail mem last rd memOff dataOff len with
+  | Ok _ => dataOff + len <= blen rd
+  | Err e => e = ErrGasUintOverflow \/ e = ErrOutOfGas \/ (e = ErrReturnDataOutOfBounds /\ blen rd < dataOff + len)
+  | Panic => False
+  end).
+Proof. exact (conj prepare_mem_ok (conj prepare_mem_errors (conj prepare_mem_overflow (conj prepare_mem_above_cap (conj run_MLOAD_full (conj run_MSTORE_full (conj run_MSTORE8_full (conj run_DATACOPY_full (conj run_SHA3_full (conj run_RANGE_full run_RETURNDATACOPY_full)))))))))). Qed.
+
+(* pointer discipline of the stack / intPool: results do not depend on aliasing *)
+Theorem aliasing_all :
+  (forall o s s', inv s -> rstep o s = Some s' ->
+  inv s' /\ vstep o (view s) = Some (view s')) /\
+  (forall ops s s', inv s -> rrun ops s = Some s' -> inv s' /\ vrun ops (view s) = Some (view s')) /\
+  (forall ops s s', inv s -> rrun ops s = Some s' ->
+  NoDup (rs_stack s') /\ (forall r, In r (rs_pool s') -> ~ In r (rs_stack s'))) /\
+  (forall h, inv (mk_rstate h 0 [] [])).
+Proof. exact (conj rstep_sound (conj rrun_sound (conj stack_refs_distinct inv_initial))). Qed.
